@@ -18,3 +18,17 @@ def replayer(pid, name):
         return fn
 
     return deco
+
+
+REGIONS = {}
+
+
+def region(name):
+    """a committed predicate over a failure record: True iff the failing input belongs to a recorded known finding.
+    known_findings.json refers to it by name; it is code under version control, never written at run time."""
+
+    def deco(fn):
+        REGIONS[name] = fn
+        return fn
+
+    return deco
